@@ -219,6 +219,7 @@ class Interp:
         self.max_depth = max_depth
         self.extern = extern or {}   # callee path suffix -> python callable(args)->value
         self.max_loop = 64
+        self.lets = {}                       # optional: facts.let_table(body) of the function a fragment is taken from
         self.reverse_hash_order = False      # iterate hash containers backwards (exposes dependence on hash order)
         self.formatted = []          # strings handed to the formatting machinery (diagnostic text is not modelled further)
 
@@ -320,6 +321,10 @@ class Interp:
                 return env[e["id"]]
             if e.get("name") in env:
                 return env[e["name"]]
+            if e["id"] in self.lets:                 # an unmutated temporary of the enclosing function: its initialiser
+                v = self.ev(self.lets[e["id"]], env, depth)
+                env[e["id"]] = v
+                return v
             raise Unknown("unbound variable " + e.get("name", "?"))
         if k == "Block":
             env = env  # lets extend the same env (ids are unique)
@@ -669,6 +674,12 @@ class Interp:
             return list(v)
         if gen in LIST_IDENTITY:
             v = self.ev(args[0], env, depth)
+            if isinstance(v, Ref) and isinstance(v.get(), (HSet, HMap, list)):
+                v = v.get()
+            if isinstance(v, HSet):
+                return self.hash_order(list(v.items))
+            if isinstance(v, HMap):
+                return self.hash_order([(k_, x_) for k_, x_ in v.items()])
             if isinstance(v, (list, tuple)) or gen.endswith(("Deref::deref", "DerefMut::deref_mut")):
                 return v
             raise Unknown("%s on %r" % (short(gen), v))
